@@ -26,7 +26,8 @@ def main():
             parts = s.split(old)
             s = old.join(parts[:n]) + new + old.join(parts[n:])
             open(p, "w").write(s)
-        env = dict(os.environ, VERIF_REPO=tmp)
+        found = os.path.join(tmp, "found")
+        env = dict(os.environ, VERIF_REPO=tmp, VF_FOUND_DIR=found)
         here = os.path.dirname(os.path.dirname(os.path.abspath(__file__)))
         r = subprocess.run([os.path.join(here, "check"), *rest, "--no-evidence"], env=env,
                            capture_output=True, text=True)
@@ -40,7 +41,7 @@ def main():
         import glob, json as _json
         keep = os.environ.get("MUT_KEEP")
         kept = False
-        for f in sorted(glob.glob(os.path.join(here, "replays", "*", "new-*.json"))):
+        for f in sorted(glob.glob(os.path.join(found, "new-*.json"))):
             if keep and not kept:
                 parts = keep.split(":")
                 pid, name = parts[0], parts[1]
